@@ -23,6 +23,7 @@ emit_err() {
     none) ;;
     small) echo "0123456789" >&2 ;;
     big) head -c 1048576 /dev/zero | tr '\0' 'e' >&2 ;;
+    huge) head -c 3145728 /dev/zero | tr '\0' 'e' >&2 ;;
   esac
 }
 emit_out() {
@@ -40,8 +41,9 @@ die() {
     *) exit $PRE_EXIT ;;
   esac
 }
-# stderr first: a reader that drained stdout before stderr would deadlock on 1 MiB
-emit_err
+# stderr first: a reader that drained stdout before stderr would deadlock on 1 MiB;
+# like most programs, the command fails if it cannot write its diagnostics
+emit_err || exit 97
 case "$PRE_WHEN" in
   before) die ;;
   during) emit_out | head -c 24; die ;;
@@ -144,7 +146,7 @@ pub fn run(args: &Args) -> ! {
     // ---- the --pre grid -------------------------------------------------------
     let mut cases: Vec<PreCase> = vec![];
     for out in ["echo", "upper", "empty", "big", "bin"] {
-        for err in ["none", "small", "big"] {
+        for err in ["none", "small", "big", "huge"] {
             for exit in ["0", "1", "2", "255", "kill"] {
                 for when in ["before", "during", "after"] {
                     for rgmode in ["full", "-m1", "-q", "-l", "count", "implicit"] {
@@ -469,7 +471,7 @@ pub fn run(args: &Args) -> ! {
     ev.set(
         "rule",
         format!(
-            "--pre with a helper script whose behaviour is the alphabet: stdout in {{the file, upper-cased, empty, the file + 4000 lines (220 KiB), a line + a NUL + 4000 lines}}, stderr in {{none, 10 bytes, 1 MiB written BEFORE stdout}}, exit in {{0,1,2,255, kill -9}} at {{before, during, after}} its output; rg consuming in {{full, -m1, -q, -l, -c, implicit directory search (binary detection quits at the NUL)}}; --pre-glob in {{*.txt, absent, !*.dat (negated only), *.dat, !*.txt}}{}: {} cases; plus a missing and a non-executable command. -z: gzip, bzip2 and xz archives of a 3-line file truncated to EVERY byte length 0..len, an unrecognised extension and a plain file. Oracle: the results equal `rg` run on the bytes the command / decompressor wrote when run once outside rg (same file name); files not selected by --pre-glob are searched directly; command failure after its output was consumed, or failure to start => a diagnostic naming the file and status 2; stopping early with an empty stderr is not an error; every run ends within 10 s (1 MiB of stderr must not block).",
+            "--pre with a helper script whose behaviour is the alphabet: stdout in {{the file, upper-cased, empty, the file + 4000 lines (220 KiB), a line + a NUL + 4000 lines}}, stderr in {{none, 10 bytes, 1 MiB, 3 MiB — written BEFORE stdout}}, exit in {{0,1,2,255, kill -9}} at {{before, during, after}} its output; rg consuming in {{full, -m1, -q, -l, -c, implicit directory search (binary detection quits at the NUL)}}; --pre-glob in {{*.txt, absent, !*.dat (negated only), *.dat, !*.txt}}{}: {} cases; plus a missing and a non-executable command. -z: gzip, bzip2 and xz archives of a 3-line file truncated to EVERY byte length 0..len, an unrecognised extension and a plain file. Oracle: the results equal `rg` run on the bytes the command / decompressor wrote when run once outside rg (same file name); files not selected by --pre-glob are searched directly; command failure after its output was consumed, or failure to start => a diagnostic naming the file and status 2; stopping early with an empty stderr is not an error; every run ends within 10 s (1 MiB of stderr must not block).",
             if tier == Tier::Quick { " (quick: one dimension varied at a time around the base point)" } else { " (full product)" },
             cases.len()
         ),
